@@ -69,6 +69,13 @@ def do_step(t, step, refdir, workdir):
         write_bytes(p, bytes.fromhex(step['actual_hex']))
         t.assertBinaryFileCorrect(p, ref, **kw)
     elif a in ('df_parquet', 'df_csv'):
+        if step.get('actual_path'):
+            ext = 'csv' if step['actual_path'] == 'source-csv' else 'parquet'
+            p = os.path.join(workdir, 'source_%d.%s' % (step['i'] % 1000, ext))
+            if step['actual_path'] != 'missing':
+                src = build_frame([[r[0], r[1] + 1.0, r[2]] for r in step['rows']], ()).drop(columns=['s'])
+                src.to_csv(p, index=False) if ext == 'csv' else src.to_parquet(p)
+            kw['actual_path'] = p
         t.assertDataFrameCorrect(build_frame(step['rows'], step.get('extra', ())), ref, **kw)
     elif a == 'ondisk':
         p = os.path.join(workdir, 'actual_' + step['ref'])
